@@ -36,6 +36,12 @@ func errTok(err error) int {
 	return -1
 }
 
+// bareExpired is an injected read failure that matches cache.ErrExpired but carries no expired item.
+type bareExpired struct{ tokErr }
+
+func (e bareExpired) Is(t error) bool { return t == cache.ErrExpired }
+func (e bareExpired) Unwrap() error   { return e.tokErr }
+
 type tidKey struct{}
 
 type callout struct {
@@ -203,6 +209,11 @@ func (f *faultyRW) doRead(ctx context.Context, key []byte) (int, error) {
 	if d.fault != 0 {
 		co.t1 = now()
 		co.outcome = fmt.Sprintf("err %d", d.fault)
+		if d.fault%2 == 1 {
+			// a backend that reports expiry WITHOUT handing out the item (ErrExpired "may" carry one): to the frontends this is
+			// a failed read like any other - there is no stale value to fall back to
+			return 0, bareExpired{tokErr{n: d.fault}}
+		}
 		return 0, tokErr{n: d.fault}
 	}
 	v, err := f.inner.Read(ctx, key)
